@@ -79,6 +79,8 @@ def _work(args):
         mod = _load(check_id)
         res = mod.run_shard(shard, tier)
         res["_wall"] = time.time() - t0
+        for d in res.get("disagreements", []):
+            d["_shard"] = shard
         return res
     except BaseException:
         return {"_crash": traceback.format_exc(), "_shard": shard}
@@ -91,6 +93,19 @@ def _recheck_main(check_id, tier, case_json):
     case = json.loads(case_json)
     out = mod.recheck(case, tier)
     print("MC_RECHECK_RESULT " + json.dumps(out, default=str))
+
+
+def rerun_shard_in_fresh_process(check_id, tier, shard):
+    """Second stage of the determinism gate: a disagreement that does not reproduce when its case is run alone may depend on
+    the cases run before it in the same process (state leaking between calls is exactly what several properties forbid).
+    Re-run the whole shard, in order, in a fresh process."""
+    p = subprocess.run(
+        [sys.executable, "-m", "mc.run", check_id, "--tier", tier, "--recheck-shard", json.dumps(shard, default=str)],
+        capture_output=True, text=True, cwd=VERIF, timeout=3600)
+    for line in p.stdout.splitlines():
+        if line.startswith("MC_RECHECK_RESULT "):
+            return json.loads(line[len("MC_RECHECK_RESULT "):])
+    return []
 
 
 def recheck_in_fresh_process(check_id, tier, case):
@@ -119,6 +134,7 @@ def _inner(argv):
     ap.add_argument("--tier", default=os.environ.get("VERIF_TIER", "quick"))
     ap.add_argument("--replay")
     ap.add_argument("--recheck-case")
+    ap.add_argument("--recheck-shard")
     ap.add_argument("--workers", type=int, default=int(os.environ.get("MC_WORKERS", "16")))
     ap.add_argument("--no-evidence", action="store_true")
     a = ap.parse_args(argv)
@@ -128,6 +144,11 @@ def _inner(argv):
 
     if a.recheck_case is not None:
         _recheck_main(check_id, tier, a.recheck_case)
+        return 0
+    if a.recheck_shard is not None:
+        _warm()
+        res = _load(check_id).run_shard(json.loads(a.recheck_shard), tier)
+        print("MC_RECHECK_RESULT " + json.dumps(res.get("disagreements", []), default=str))
         return 0
 
     if a.replay:
@@ -250,7 +271,19 @@ def _inner(argv):
         elif again and again[0].get("kind") == "recheck-crashed":
             confirmed.append((d, len(ds)))
         else:
-            flaky.append({"case": d.get("case"), "first": d, "again": again})
+            # not reproduced alone: does it reproduce with its history (the shard re-run in order in a fresh process)?
+            again2 = []
+            if d.get("_shard") is not None:
+                try:
+                    again2 = rerun_shard_in_fresh_process(check_id, tier, d["_shard"])
+                except Exception:
+                    again2 = []
+            if any(x.get("sig", x.get("kind")) == sig for x in again2):
+                d["history_dependent"] = ("the case alone agrees with the reference in a fresh process, but re-running its whole shard in order "
+                                          "in a fresh process reproduces the disagreement: the outcome depends on earlier calls in the same process")
+                confirmed.append((d, len(ds)))
+            else:
+                flaky.append({"case": d.get("case"), "first": d, "again": again})
     for sig, ds in sig_items[GATE:]:
         confirmed.append((ds[0], len(ds)))
 
@@ -265,7 +298,7 @@ def _inner(argv):
             except Exception:
                 snippet = None
         with open(path, "w") as fh:
-            json.dump({"property": check_id, "tier": tier, "case": d.get("case"),
+            json.dump({"property": check_id, "tier": tier, "case": d.get("case"), "shard": d.get("_shard"),
                        "disagreement": d, "same_signature_count": cnt,
                        "standalone_snippet": snippet,
                        "replay_cmd": f"/venv/bin/python -m mc.run {check_id} --replay {path}"},
